@@ -149,21 +149,22 @@ type heldLock struct {
 
 // State is the symbolic state of one path.
 type State struct {
-	fr      *Frame
-	heaps   map[string]Term
-	top     Term
-	assume  *alist
-	ghost   map[string]Term
-	held    []heldLock
-	fresh   map[string]bool // unescaped refs allocated on this path
-	closures map[string]*FuncVal
-	doneOf  map[string]Term // chan term -> ctx term (Done() results)
-	path    []string
-	dead    bool
+	fr           *Frame
+	heaps        map[string]Term
+	top          Term
+	heapTop      map[string]Term // allocation frontier when the heap key was last written
+	assume       *alist
+	ghost        map[string]Term
+	held         []heldLock
+	fresh        map[string]bool // unescaped refs allocated on this path
+	closures     map[string]*FuncVal
+	doneOf       map[string]Term // chan term -> ctx term (Done() results)
+	path         []string
+	dead         bool
 	loopsEntered map[*ssa.BasicBlock]bool
-	iters   map[string]*IterVal
-	events  []string
-	blockPts int
+	iters        map[string]*IterVal
+	events       []string
+	blockPts     int
 }
 
 func (s *State) clone() *State {
@@ -172,6 +173,10 @@ func (s *State) clone() *State {
 	t.heaps = make(map[string]Term, len(s.heaps))
 	for k, v := range s.heaps {
 		t.heaps[k] = v
+	}
+	t.heapTop = make(map[string]Term, len(s.heapTop))
+	for k, v := range s.heapTop {
+		t.heapTop[k] = v
 	}
 	t.ghost = make(map[string]Term, len(s.ghost))
 	for k, v := range s.ghost {
@@ -235,20 +240,20 @@ type VC struct {
 
 // Oblig is a named proof obligation; it is discharged when all its VCs are unsat.
 type Oblig struct {
-	Name   string
-	Kind   string // requires | ensures | invariant-init | invariant-pres | nopanic | callpre | hook | monitor | lemma | frame | mode | effect | cover | canary
-	Tags   []string
-	Func   string
-	Pos    token.Pos
-	PosStr string
-	Src    string
-	VCs    []*VC
-	Status string // discharged | failed | undecided
-	Detail string
-	Props  []string
-	Backend string
-	Millis int64
-	Expect string // "sat" for covers/canaries
+	Name       string
+	Kind       string // requires | ensures | invariant-init | invariant-pres | nopanic | callpre | hook | monitor | lemma | frame | mode | effect | cover | canary
+	Tags       []string
+	Func       string
+	Pos        token.Pos
+	PosStr     string
+	Src        string
+	VCs        []*VC
+	Status     string // discharged | failed | undecided
+	Detail     string
+	Props      []string
+	Backend    string
+	Millis     int64
+	Expect     string // "sat" for covers/canaries
 	Structural bool
 	StructOK   bool
 }
